@@ -29,6 +29,17 @@ import (
 
 // ---------------------------------------------------------------- common
 
+// which property an observable belongs to: MatchFile / ShouldBuild / matchTags -> C19, ReadImports -> C18
+var p19 = []string{"C19"}
+var p18 = []string{"C18"}
+
+func propsOfCase(c string) []string {
+	if strings.HasPrefix(c, "read ") {
+		return p18
+	}
+	return p19
+}
+
 func encTags(ts []string) string {
 	if len(ts) == 0 {
 		return "_"
@@ -491,7 +502,7 @@ func checkDriverU(res *corr.Result, model string) {
 	}
 	out, err := mdl.Run(model, nil, cases, 1)
 	if err != nil {
-		res.Disagree("<driver uni>", "", err.Error())
+		res.DisagreeFor(p19, "<driver uni>", "", err.Error())
 		return
 	}
 	for i, rg := range ranges {
@@ -502,7 +513,7 @@ func checkDriverU(res *corr.Result, model string) {
 			}
 		}
 		if w := strings.Join(want, ","); w != out[i] {
-			res.Disagree(cases[i], w[:min(len(w), 200)], out[i][:min(len(out[i]), 200)])
+			res.DisagreeFor(p19, cases[i], w[:min(len(w), 200)], out[i][:min(len(out[i]), 200)])
 		}
 	}
 }
@@ -547,7 +558,7 @@ func runC19(res *corr.Result, r *rand.Rand, tier, model string) int {
 	}
 	out, err := mdl.Run(model, nil, cases, 0)
 	if err != nil {
-		res.Disagree("<driver>", "", err.Error())
+		res.DisagreeFor(p19, "<driver>", "", err.Error())
 		return 0
 	}
 	maps := make([]map[string]bool, len(sets))
@@ -568,12 +579,12 @@ func runC19(res *corr.Result, r *rand.Rand, tier, model string) int {
 		if string(impl) != out[i] {
 			for j := range sets {
 				if j < len(out[i]) && out[i][j] != impl[j] {
-					res.Disagree("match "+corr.Hx([]byte(n))+" "+encTags(sets[j]), string(impl[j:j+1]), out[i][j:j+1])
+					res.DisagreeFor(p19, "match "+corr.Hx([]byte(n))+" "+encTags(sets[j]), string(impl[j:j+1]), out[i][j:j+1])
 					break
 				}
 			}
 			if len(out[i]) != len(impl) {
-				res.Disagree(cases[i], string(impl), out[i])
+				res.DisagreeFor(p19, cases[i], string(impl), out[i])
 			}
 		}
 		res.Evaluations += len(sets)
@@ -625,7 +636,7 @@ func runC19(res *corr.Result, r *rand.Rand, tier, model string) int {
 	}
 	out, err = mdl.Run(model, nil, cases, 0)
 	if err != nil {
-		res.Disagree("<driver>", "", err.Error())
+		res.DisagreeFor(p19, "<driver>", "", err.Error())
 		return nontrivial
 	}
 	for i, c := range contents {
@@ -648,7 +659,7 @@ func runC19(res *corr.Result, r *rand.Rand, tier, model string) int {
 					if j < len(out[i]) {
 						m = out[i][j : j+1]
 					}
-					res.Disagree("should "+corr.Hx(c)+" "+encTags(ts), string(impl[j:j+1]), m)
+					res.DisagreeFor(p19, "should "+corr.Hx(c)+" "+encTags(ts), string(impl[j:j+1]), m)
 					break
 				}
 			}
@@ -1239,7 +1250,7 @@ func runC18(res *corr.Result, r *rand.Rand, tier, model string) int {
 	}
 	out, err := mdl.Run(model, nil, cases, 0)
 	if err != nil {
-		res.Disagree("<driver>", "", err.Error())
+		res.DisagreeFor(p18, "<driver>", "", err.Error())
 		return 0
 	}
 	nontrivial := 0
@@ -1247,7 +1258,7 @@ func runC18(res *corr.Result, r *rand.Rand, tier, model string) int {
 		for k, report := range []bool{false, true} {
 			impl := implRead(c.d, report).line()
 			if impl != out[2*i+k] {
-				res.Disagree(cases[2*i+k], impl, out[2*i+k])
+				res.DisagreeFor(p18, cases[2*i+k], impl, out[2*i+k])
 			}
 		}
 		if readOracle(res, c.d, c.want, c.valid) {
@@ -1283,7 +1294,7 @@ func replayOne(res *corr.Result, model, c string) {
 	f := strings.Split(c, " ")
 	out, err := mdl.Run(model, nil, []string{c}, 1)
 	if err != nil || len(f) != 3 {
-		res.Disagree(c, "", fmt.Sprint("replay: ", err))
+		res.DisagreeFor(propsOfCase(c), c, "", fmt.Sprint("replay: ", err))
 		return
 	}
 	res.Evaluations = 1
@@ -1292,21 +1303,21 @@ func replayOne(res *corr.Result, model, c string) {
 		name, ts := string(corr.Unhx(f[1])), decTags(f[2])
 		got := imports.MatchFile(name, tagMap(ts))
 		if boolStr(got) != out[0] {
-			res.Disagree(c, boolStr(got), out[0])
+			res.DisagreeFor(p19, c, boolStr(got), out[0])
 		}
 		matchFileOracle(res, name, ts, got)
 	case "should":
 		content, ts := corr.Unhx(f[1]), decTags(f[2])
 		got := imports.ShouldBuild(content, tagMap(ts))
 		if boolStr(got) != out[0] {
-			res.Disagree(c, boolStr(got), out[0])
+			res.DisagreeFor(p19, c, boolStr(got), out[0])
 		}
 		shouldBuildOracle(res, content, ts, got)
 	case "read":
 		d := corr.Unhx(f[1])
 		impl := implRead(d, f[2] == "1").line()
 		if impl != out[0] {
-			res.Disagree(c, impl, out[0])
+			res.DisagreeFor(p18, c, impl, out[0])
 		}
 		readOracle(res, d, nil, false)
 	}
@@ -1316,34 +1327,13 @@ func runImports(tier string, seed int64, model string, replay string) *corr.Resu
 	res := corr.NewResult("imports", tier, seed)
 	if replay != "" {
 		replayOne(res, model, replay)
-		if res.NDisagreements > 0 {
-			if strings.HasPrefix(replay, "read ") {
-				disagreementProps = []string{"C18"}
-			} else {
-				disagreementProps = []string{"C19"}
-			}
-		}
 		return res
 	}
 	r := rand.New(rand.NewSource(seed))
 	checkDriverU(res, model)
 	syslistDrift(res)
-	d0 := res.NDisagreements
 	n19 := runC19(res, r, tier, model)
-	d19 := res.NDisagreements - d0
 	n18 := runC18(res, r, tier, model)
-	d18 := res.NDisagreements - d0 - d19
-	if d0 > 0 { // the driver's letter/digit table is only used by the C19 model
-		d19 += d0
-	}
-	if d19 > 0 {
-		disagreementProps = append(disagreementProps, "C19")
-	}
-	if d18 > 0 {
-		disagreementProps = append(disagreementProps, "C18")
-	}
-	res.Extra["disagreements_C19"] = d19
-	res.Extra["disagreements_C18"] = d18
 	res.DistinctNontrivial = n19 + n18
 	res.Extra["nontrivial_C19"] = n19
 	res.Extra["nontrivial_C18"] = n18
